@@ -57,7 +57,7 @@ class CifFile():
             "cell_beta"  : cell.beta,
             "cell_gamma" : cell.gamma,
             "cell_volume": round(cell.volume, 4),
-            "cell_z"     : self.data.zerr.Z,
+            "cell_z"     : self.data.Z,
         }
 
     def _symmetry_data(self) -> Dict[str, str]:
